@@ -58,10 +58,13 @@ manifest = {
         "name": "sim",
         "path": "/verif/sim",
         "serves_properties": sorted(claimed),
-        "kind_free_text": "deterministic simulator: virtual-time asyncio event loop and "
-                          "baton-passing thread scheduler over a simulated network (Wire model, "
-                          "HTTP/1.1, HTTP/2, proxy and SOCKS peers), seeded fault and "
-                          "cancellation injection, ledger oracles, scenario minimiser, replay",
+        "kind_free_text": "deterministic simulator: virtual-time asyncio event loop, trio under a "
+                          "virtual clock and baton-passing thread scheduler (operation / line / PCT / "
+                          "systematic-delay policies) over a simulated network (Wire model, HTTP/1.1, "
+                          "HTTP/2, proxy and SOCKS peers; seam L1 behind network_backend=, seam L2 "
+                          "under the real anyio / trio / socket backends), seeded and enumerated fault "
+                          "and cancellation injection, dead- and livelock detection, ledger oracles, "
+                          "scenario minimiser, replay",
     }],
     "checks": checks,
     "not_applicable": na,
